@@ -119,12 +119,13 @@ def ref_verdict(case: DCase):
 
 
 def build(rng, alg, enc, serialization="compact", plaintext=b"plaintext", zip_=False, style=0, aad=None, header_extra=None,
-          unprotected=None, recipient_header=None, alg_in="protected", kn=None):
+          unprotected=None, recipient_header=None, alg_in="protected", kn=None, rnd=None):
     kn = kn or key_name(alg, enc)
     sender_name = SENDER.get(kn) if alg.startswith("ECDH-1PU") else None
     sender_priv = native_priv(sender_name) if sender_name else None
     v = R.encrypt(alg, enc, native_pub(kn), plaintext, header_extra=header_extra, zip_=zip_, style=style, serialization=serialization,
-                  aad=aad, unprotected=unprotected, recipient_header=recipient_header, sender_priv=sender_priv, alg_in=alg_in)
+                  aad=aad, unprotected=unprotected, recipient_header=recipient_header, sender_priv=sender_priv, alg_in=alg_in,
+                  **({"rnd": rnd} if rnd is not None else {}))
     meta = {"alg": alg, "enc": enc, "key": kn, "plaintext": plaintext, "zip": zip_, "serialization": serialization, "sender": sender_name}
     return DCase(v, K.key(kn, private=True), K.key(sender_name, private=False) if sender_name else None, note="valid", meta=meta)
 
@@ -202,6 +203,10 @@ def tamper(case: DCase, rng, others=()):
         mk(J5(p, ek, iv, ct, b64u(rt + b"\x00")), "extend-tag")
         mk(J5(p, ek, b64u(riv[:-1]), ct, tg), "truncate-iv")
         mk(J5(p, ek, b64u(riv + b"\x00"), ct, tg), "extend-iv")
+        # the other end: leading octets cut off (a nonce API may left-pad a short nonce with zeros) / zeros prepended
+        mk(J5(p, ek, b64u(riv[1:]), ct, tg), "truncate-iv-front-1")
+        mk(J5(p, ek, b64u(riv[4:]), ct, tg), "truncate-iv-front-4")
+        mk(J5(p, ek, b64u(b"\x00" * 4 + riv), ct, tg), "extend-iv-front-zeros")
         for o in others:
             if o.compact and o is not case:
                 op, oek, oiv, oct_, otg = _split(o.value)
@@ -225,6 +230,10 @@ def tamper(case: DCase, rng, others=()):
         mk(w(protected=flip(v["protected"].encode(), rng).decode()), "flip-protected")
         mk(w(protected=respell(v["protected"].encode(), rng).decode()), "respell-protected")
         mk(w(iv=flip(v["iv"].encode(), rng).decode()), "flip-iv")
+        _riv = b64u_dec(v["iv"])
+        mk(w(iv=b64u(_riv[4:]).decode()), "truncate-iv-front-4")
+        mk(w(iv=b64u(_riv[:-1]).decode()), "truncate-iv")
+        mk(w(iv=b64u(b"\x00" * 4 + _riv).decode()), "extend-iv-front-zeros")
         if v["ciphertext"]:
             mk(w(ciphertext=flip(v["ciphertext"].encode(), rng).decode()), "flip-ciphertext")
         mk(w(tag=flip(v["tag"].encode(), rng).decode()), "flip-tag")
